@@ -43,31 +43,33 @@ Definition help_help_subcmd : cmd :=
   (cmd_new s_help) <| c_about := Some s_help_about |>
     <| c_set := settings_none <| s_disable_help_flag := true |> <| s_disable_version_flag := true |> |>.
 
-(** the help subcommand before [_propagate_subcommand] *)
-Definition help_subcmd_base (expand : bool) (parent : cmd) : cmd :=
-  if expand then
-    let g := settings_none <| s_disable_help_sub := true |> in
-    (cmd_new s_help) <| c_about := Some s_help_about |> <| c_set := g |> <| c_gset := g |>
-      <| c_subs := map copy_subtree_for_help (c_subs parent) ++ [help_help_subcmd] |>
-  else (cmd_new s_help) <| c_about := Some s_help_about |> <| c_args := [help_subcommand_arg] |>.
+(** the help subcommand of the [expand_help_tree] path before [_propagate_subcommand]
+    (the other path is [Build.help_subcommand]) *)
+Definition help_subcmd_base_t (parent : cmd) : cmd :=
+  let g := settings_none <| s_disable_help_sub := true |> in
+  (cmd_new s_help) <| c_about := Some s_help_about |> <| c_set := g |> <| c_gset := g |>
+    <| c_subs := map copy_subtree_for_help (c_subs parent) ++ [help_help_subcmd] |>.
 
-Definition help_subcommand_x (expand : bool) (parent : cmd) : cmd :=
-  let h := propagate_subcommand parent (help_subcmd_base expand parent) in
+Definition help_subcommand_t (parent : cmd) : cmd :=
+  let h := propagate_subcommand parent (help_subcmd_base_t parent) in
   let h := h <| c_version := None |> <| c_long_version := None |>
              <| c_set := (c_set h) <| s_disable_help_flag := true |> <| s_disable_version_flag := true |> |>
              <| c_gset := (c_gset h) <| s_propagate_version := false |> |> in
   fix_help_unset h.
 
-Definition bs_help_version_x (expand : bool) (c : cmd) : cmd :=
+(** [_check_help_and_version(true)]; [_check_help_and_version(false)] is [Build.bs_help_version] *)
+Definition bs_help_version_t (c : cmd) : cmd :=
   let c := if negb (is_set s_disable_help_flag c) then c <| c_args := c_args c ++ [help_arg] |> else c in
   let c := if negb (is_disable_version_flag_set c) then c <| c_args := c_args c ++ [version_arg] |> else c in
   if negb (is_set s_disable_help_sub c)
-  then c <| c_subs := c_subs c ++ [help_subcommand_x expand c] |> else c.
+  then c <| c_subs := c_subs c ++ [help_subcommand_t c] |> else c.
 
-(** [_build_self(expand_help_tree)]; [build_self_x false] is [Build.build_self] (lemma) *)
+(** [_build_self(expand_help_tree)]: with [false] it is the shared [Build.build_self] *)
 Definition build_self_x (expand : bool) (c : cmd) : cmd :=
-  if s_built (c_set c) then c
-  else bs_mark (bs_deprecated (bs_args (bs_globals (bs_help_version_x expand (bs_propagate (bs_settings c)))))).
+  if expand then
+    if s_built (c_set c) then c
+    else bs_mark (bs_deprecated (bs_args (bs_globals (bs_help_version_t (bs_propagate (bs_settings c))))))
+  else build_self c.
 
 (** [_build_recursive(expand_help_tree)] *)
 Fixpoint build_recursive_x (fuel : nat) (expand : bool) (c : cmd) : cmd :=
